@@ -54,6 +54,24 @@ type RegistrationManager struct {
 	// ingestChanLock guards ingestChan: it is set when the ingest pipeline starts and read by
 	// the periodic stats printer, which runs in another goroutine.
 	ingestChanLock sync.RWMutex
+
+	// reloadMu guards PhantomSelector and GeoIP, which OnReload replaces while ingest workers and
+	// connection handlers use them. Readers go through GetPhantomSelector / GetGeoIP.
+	reloadMu sync.RWMutex
+}
+
+// GetPhantomSelector returns the phantom selector currently in force.
+func (regManager *RegistrationManager) GetPhantomSelector() *phantoms.PhantomIPSelector {
+	regManager.reloadMu.RLock()
+	defer regManager.reloadMu.RUnlock()
+	return regManager.PhantomSelector
+}
+
+// GetGeoIP returns the GeoIP database currently in force.
+func (regManager *RegistrationManager) GetGeoIP() geoip.Database {
+	regManager.reloadMu.RLock()
+	defer regManager.reloadMu.RUnlock()
+	return regManager.GeoIP
 }
 
 // NewRegistrationManager returns a newly initialized registration Manager
@@ -107,11 +125,14 @@ func (regManager *RegistrationManager) OnReload(conf *RegConfig) {
 	if err != nil {
 		regManager.Logger.Errorf("failed to reload phantom subnets: %v", err)
 	} else {
+		regManager.reloadMu.Lock()
 		regManager.PhantomSelector = p
+		regManager.reloadMu.Unlock()
 	}
 
 	// if we made it here via sigHUP then the RegConfig.ParseBlocklists should
 	// already have been called and not erred.
+	regManager.RegConfig.listMu.Lock()
 	regManager.RegConfig.CovertBlocklistSubnets = conf.CovertBlocklistSubnets
 	regManager.RegConfig.covertBlocklistSubnets = conf.covertBlocklistSubnets
 
@@ -126,6 +147,7 @@ func (regManager *RegistrationManager) OnReload(conf *RegConfig) {
 
 	regManager.RegConfig.PhantomBlocklist = conf.PhantomBlocklist
 	regManager.RegConfig.phantomBlocklist = conf.phantomBlocklist
+	regManager.RegConfig.listMu.Unlock()
 
 	geoipDB, err := geoip.New(conf.DBConfig)
 	if errors.Is(err, geoip.ErrMissingDB) {
@@ -136,7 +158,9 @@ func (regManager *RegistrationManager) OnReload(conf *RegConfig) {
 		return
 	}
 
+	regManager.reloadMu.Lock()
 	regManager.GeoIP = geoipDB
+	regManager.reloadMu.Unlock()
 }
 
 // AddTransport initializes a transport so that it can be tracked by the manager when
